@@ -46,7 +46,22 @@ scrape_configs:
   - source_labels: [__name__]
     regex: dropme.*
     action: drop
+- job_name: job-b
+  scrape_timeout: 5s
+  metrics_path: /unused-default-path
+  metric_relabel_configs:
+  - source_labels: [__name__]
+    regex: dropme.*
+    action: drop
 `
+
+// JobOf: every third target belongs to the second job.
+func JobOf(id int) string {
+	if id%3 == 2 {
+		return "job-b"
+	}
+	return "job"
+}
 
 // ---------------------------------------------------------------------------
 // target farm
@@ -322,8 +337,8 @@ func (w *World) setTarget(t TargetSpec) {
 	w.farm.mu.Unlock()
 	u, _ := url.Parse(w.farm.srv.URL)
 	h := hashOf(t.ID)
-	w.active[h] = &discovery.SDTargets{Job: "job", ShardTarget: &target.Target{Hash: h, Labels: labels.FromStrings(
-		model.AddressLabel, u.Host, model.SchemeLabel, "http", model.MetricsPathLabel, fmt.Sprintf("/t/%d", t.ID), "job", "job", "instance", fmt.Sprint(t.ID))}}
+	w.active[h] = &discovery.SDTargets{Job: JobOf(t.ID), ShardTarget: &target.Target{Hash: h, Labels: labels.FromStrings(
+		model.AddressLabel, u.Host, model.SchemeLabel, "http", model.MetricsPathLabel, fmt.Sprintf("/t/%d", t.ID), "job", JobOf(t.ID), "instance", fmt.Sprint(t.ID))}}
 	if w.ex[h] == nil {
 		st := target.NewScrapeStatus(int64(t.Kept), int64(t.Kept+t.Drop))
 		switch t.Explorer {
@@ -472,7 +487,7 @@ func NewWorld(spec Spec, root string, rseed int64) (*World, error) {
 				t := *st.ShardTarget
 				t.TargetState = p.State
 				t.Series = w.ex[t.Hash].Series
-				m["job"] = append(m["job"], &t)
+				m[st.Job] = append(m[st.Job], &t)
 			}
 			// the sidecar has no configuration yet: give it one first, as a running shard would have
 			if err := w.nodes[i].in.PushConfig(cfgText); err != nil {
